@@ -9,6 +9,7 @@ pub mod c11;
 pub mod c12;
 pub mod c13;
 pub mod c14;
+pub mod c15;
 
 use vcommon::{Check, Chooser, EvidenceExtras, RunOutcome, Tier};
 
@@ -67,6 +68,7 @@ pub fn all() -> Vec<Box<dyn Check>> {
     v.push(Box::new(c12::C12));
     v.push(Box::new(c13::C13Direct));
     v.push(Box::new(c14::C14));
+    v.push(Box::new(c15::C15));
     v.push(Box::new(Reuse { property: "C14", family: "c14_monitor_on_random_history", inner: Box::new(c08::C08Driver), quick_runs: 3000, thorough_runs: 60_000 }));
     v.push(Box::new(Reuse { property: "C13", family: "c13_monitor_on_closed_loop_faults", inner: Box::new(c02_faults()), quick_runs: 800, thorough_runs: 30_000 }));
     v.push(Box::new(Reuse { property: "C13", family: "c13_monitor_on_random_history", inner: Box::new(c08::C08Driver), quick_runs: 3000, thorough_runs: 60_000 }));
@@ -139,6 +141,9 @@ pub fn extras(property: &str) -> EvidenceExtras {
         }
         "C11" => {
             e.rule = "each run = a 2-3 port boundary clock between a scripted parent (Announce contents redrawn at tape-chosen times: flags, utcOffset, timeSource, quality, priorities, stepsRemoved 0..254, grandmaster identity), a competing master, parent silences and run-time set_clock_quality; every emitted Announce is compared field by field with the data-set getters, with the parent's last Announce (+1 step) and with the instance's own attributes; non-trivial = Announces were emitted while a port was slave; distinct = change-script fingerprint plus transition sequence".into();
+        }
+        "C15" => {
+            e.rule = "each run = a boundary clock (one slave port, 1-3 master ports sharing the daemon's real TlvForwarder) whose scripted parent, another acceptable master and an unacceptable sender attach generated TLV suffixes to their Announces (propagating / non-propagating / reserved types, even lengths 0..1100 incl. sizes equal to, just below and just above the room left, path traces of 0..200 entries incl. looping ones, bursts beyond the forwarder capacity); each emitted Announce is compared with a per-port model queue; non-trivial = Announces checked and at least one TLV forwarded or looping Announce sent; distinct = TLV script fingerprint".into();
         }
         "C12" => {
             e.rule = "each run = a generated history with a faithful host (timers armed and fired exactly as requested; lost/late TX timestamps, masters appearing/disappearing, second peer-delay responders) followed by (a) total silence or (b) a steadily announcing better master; non-trivial = phase 2 evaluated; distinct = (variant, start states, transition sequence) fingerprint".into();
